@@ -687,9 +687,19 @@ func checkLegacyInvalid(c legacyInvalidCase, rec *h.Rec) error {
 	default:
 		h.HarnessError("valid scalar in an invalid-key case")
 	}
-	pub := g.c.BaseMul(g.modN(d))
-	if pub.Inf {
-		pub = g.c.G
+	// memo of a pure function (several ms on P-521); no case depends on its content
+	memoKey := g.name + "/" + c.D
+	pubMemoMu.Lock()
+	pub, hit := pubMemo[memoKey]
+	pubMemoMu.Unlock()
+	if !hit {
+		pub = g.c.BaseMul(g.modN(d))
+		if pub.Inf {
+			pub = g.c.G
+		}
+		pubMemoMu.Lock()
+		pubMemo[memoKey] = pub
+		pubMemoMu.Unlock()
 	}
 	lp := &ecdsa.PublicKey{Curve: g.ec, X: cpi(pub.X), Y: cpi(pub.Y)}
 	priv := &sm2.PrivateKey{PrivateKey: ecdsa.PrivateKey{PublicKey: *lp, D: cpi(d)}}
@@ -732,6 +742,12 @@ func TestC06_LegacyInvalidKey(t *testing.T) {
 			ds := []*big.Int{bi(0), sub(n, one), n, add(n, one), add(n, bi(5)), add(n, n),
 				new(big.Int).Lsh(one, uint(g.orderBits)), new(big.Int).Lsh(one, uint(8*g.byteLen+8)), new(big.Int).Lsh(one, 1000),
 				add(new(big.Int).Lsh(one, uint(8*g.byteLen)), sub(n, one)), bi(-1), bi(-5), new(big.Int).Neg(n), new(big.Int).Neg(sub(n, bi(2)))}
+			// far above n with a valid scalar in the low bytes
+			for k, w := range wideValues(g.scalar(uint64(g.byteLen)), g.byteLen, 7) {
+				if k%6 == 1 && w.v.Cmp(sub(n, one)) >= 0 { // (2^512 is a valid scalar on P-521)
+					ds = append(ds, w.v)
+				}
+			}
 			for _, d := range ds {
 				// every signing entry point as the first call, each followed by two others
 				for i, a := range legacySigners {
